@@ -4,6 +4,7 @@ import (
 	"encoding/binary"
 	"errors"
 	"fmt"
+	"math"
 )
 
 const (
@@ -132,6 +133,10 @@ var (
 	// ErrPanic and errors wrapping ErrPanic report runtime errors, such
 	// as an index out of bounds or a stack overflow.
 	ErrPanic = errors.New("user error")
+	// ErrOperandRange is returned when an operand does not fit the
+	// operand width of its instruction, e.g. a jump target or constant
+	// index beyond 65535.
+	ErrOperandRange = fmt.Errorf("%w: operand out of range", ErrInternal)
 	// ErrUnknownOpcode is returned when an unknown opcode is encountered.
 	ErrUnknownOpcode = fmt.Errorf("%w: unknown opcode", ErrInternal)
 )
@@ -214,7 +219,10 @@ func Make(op Opcode, operands ...int) ([]byte, error) {
 	for i, o := range operands {
 		width := def.OperandWidths[i]
 		if width == 2 {
-			binary.BigEndian.PutUint16(instruction[offset:], uint16(o)) //nolint:gosec // we are just going to be lax about overflow errors at the moment
+			if o < 0 || o > math.MaxUint16 {
+				return nil, fmt.Errorf("%w: %s operand %d", ErrOperandRange, def.Name, o)
+			}
+			binary.BigEndian.PutUint16(instruction[offset:], uint16(o))
 		}
 		offset += width
 	}
